@@ -19,7 +19,7 @@ RULE = ("state = multiset of k lattice points x scaling; every distinct ordering
         "vertex (lies on an edge, face or is the origin) or the configuration is affinely dependent; "
         "distinct = distinct (multiset, scaling)")
 ASSUMPTIONS = ["fractions.Fraction arithmetic of CPython is exact",
-               "tolerance | |v|-|v*| | <= 1e-9*max(1, max_i |p_i|) (purely relative is meaningless when 0 is in the hull)"]
+               "tolerance | |v|-|v*| | <= 1e-9*max_i |p_i| (relative to the size of the configuration; purely relative to |v*| is meaningless when 0 is in the hull)"]
 CHUNK = 200
 STATE_TIMEOUT = 120.0
 
@@ -30,6 +30,11 @@ SCALES = {
     "small": (1e-2, 1e-2, 1e-2),
     "large": (1e3, 1e3, 1e3),
     "plate": (100.0, 100.0, 0.01),
+    "s1e-3": (1e-3, 1e-3, 1e-3),
+    "s1e-4": (1e-4, 1e-4, 1e-4),
+    "s1e-5": (1e-5, 1e-5, 1e-5),
+    "s1e-6": (1e-6, 1e-6, 1e-6),
+    "needle": (1.0, 1e-5, 1e-5),
 }
 
 
@@ -55,10 +60,19 @@ def enumerate_states(tier, seed):
             states.append({"k": k, "pts": ms, "scale": "unit"})
     k4 = [{"k": 4, "pts": ms, "scale": "unit"} for ms in _multisets(v1, 4)]
     meta = {}
+    extra_scales_quick = ("small", "s1e-4", "needle", "aniso3")
     if tier == "quick":
         states += k4
-        meta["bound_completed"] = ("complete: all multisets of k<=4 points over {-1,0,1}^3, every ordering "
-                                   "(27+729+19683+531441 = 551880 ordered configurations), unit scale")
+        n_sl = 8
+        sl = seed % n_sl
+        for scn in extra_scales_quick:
+            for k in (2, 3):
+                for ms in _multisets(v1, k):
+                    states.append({"k": k, "pts": ms, "scale": scn})
+            states += [{"k": 4, "pts": st["pts"], "scale": scn} for i, st in enumerate(k4) if i % n_sl == sl]
+        meta["bound_completed"] = ("complete: all multisets of k<=4 points over {-1,0,1}^3, every ordering (551880 ordered "
+                                   "configurations) at unit scale; plus scalings %s: k<=3 complete, k=4 slice %d of %d"
+                                   % (", ".join(extra_scales_quick), sl, n_sl))
         meta["exhaustive"] = True
     else:
         states += k4
@@ -66,21 +80,24 @@ def enumerate_states(tier, seed):
         for k in (1, 2, 3):
             for ms in _multisets(v2, k):
                 states.append({"k": k, "pts": ms, "scale": "unit"})
-        for sc in ("aniso3", "aniso6", "small", "large", "plate"):
+        for scn in [x for x in SCALES if x != "unit"]:
             for k in (2, 3):
                 for ms in _multisets(v1, k):
-                    states.append({"k": k, "pts": ms, "scale": sc})
-            for s in k4:
-                states.append({"k": 4, "pts": s["pts"], "scale": sc})
-        meta["bound_completed"] = ("complete: all multisets of k<=4 points over {-1,0,1}^3 (551880 ordered "
-                                   "configurations), k<=3 over {-2..2}^3, and the {-1,0,1} lattice under 5 scalings "
-                                   "(anisotropic 1:1e-3:1e-6, 1:1e-6:1e-12, uniform 1e-2, 1e3, plate 100:100:0.01)")
+                    states.append({"k": k, "pts": ms, "scale": scn})
+            for st in k4:
+                states.append({"k": 4, "pts": st["pts"], "scale": scn})
+        meta["bound_completed"] = ("complete: all multisets of k<=4 points over {-1,0,1}^3 at unit scale and under %d scalings "
+                                   "(uniform 1e-6..1e3, anisotropic 1:1e-3:1e-6, 1:1e-6:1e-12, needle, plate), k<=3 over {-2..2}^3"
+                                   % (len(SCALES) - 1))
         meta["exhaustive"] = True
     return states, meta
 
 
+_SCALE = ["unit"]
+
+
 def _viol(kind, entry, cls, detail):
-    return {"kind": kind, "entry": entry, "sig": "%s:%s:%s" % (entry, kind, cls), "detail": detail}
+    return {"kind": kind, "entry": entry, "sig": "%s:%s:%s:%s" % (entry, kind, cls, _SCALE[0]), "detail": detail}
 
 
 def _classify(k, sub):
@@ -92,13 +109,16 @@ def run_state(desc):
     from distance3d.gjk._gjk_original import (SimplexInfo, Solution,
                                               distance_subalgorithm_with_backup_procedure)
     k = desc["k"]
+    _SCALE[0] = desc["scale"]
     sc = SCALES[desc["scale"]]
     base = [tuple(float(c) * s for c, s in zip(p, sc)) for p in desc["pts"]]
     exact_pts = [tuple(F(c) for c in p) for p in base]
     nsq, vstar, S, lam = ref.min_norm(exact_pts)
     ref_norm = float(nsq) ** 0.5 if nsq < 1e-300 else (float(nsq.numerator) / float(nsq.denominator)) ** 0.5
-    scale = max(1.0, max(max(abs(c) for c in p) for p in base))
-    tol = 1e-9 * scale
+    scale = max(max(abs(c) for c in p) for p in base)
+    if scale == 0.0:
+        scale = 1.0
+    tol = 1e-9 * scale   # relative to the size of the configuration
     viol = []
     hist = {"jolt_set": {}, "orig_n": {}, "opt_dim": {}}
     n_eval = 0
@@ -135,7 +155,7 @@ def run_state(desc):
                 if not err <= tol:
                     viol.append(_viol("norm", "jolt", "k%d" % k,
                                       {"order": order, "v": v, "ref_norm": ref_norm, "err": err, "set": sset}))
-                if abs(float(vlsq) - float(np.dot(v, v))) > 1e-12 * max(1.0, float(np.dot(v, v))):
+                if abs(float(vlsq) - float(np.dot(v, v))) > 1e-12 * max(scale * scale, float(np.dot(v, v))):
                     viol.append(_viol("len_sq", "jolt", "k%d" % k, {"order": order, "vlsq": float(vlsq)}))
                 if sset <= 0 or sset >= (1 << k):
                     viol.append(_viol("subset_range", "jolt", "k%d" % k, {"order": order, "set": sset}))
@@ -174,7 +194,7 @@ def run_state(desc):
         if not err <= tol:
             viol.append(_viol("norm", "orig_backup", "k%d" % k,
                               {"order": order, "v": sd, "ref_norm": ref_norm, "err": err, "m": m}))
-        if abs(sol.distance_squared - float(np.dot(sd, sd))) > 1e-9 * max(1.0, scale * scale):
+        if abs(sol.distance_squared - float(np.dot(sd, sd))) > 1e-9 * scale * scale:
             viol.append(_viol("len_sq", "orig_backup", "k%d" % k, {"order": order}))
         if np.any(w < -1e-12) or abs(float(w.sum()) - 1.0) > 1e-9:
             viol.append(_viol("weights", "orig_backup", "k%d" % k, {"order": order, "w": w}))
